@@ -49,7 +49,7 @@ Print Assumptions C17_code_only_noop.
 
 (* Non-vacuity: root 1 imports 2 (code) and 3 (type only); 3 is dropped, 2 kept, types cleared. *)
 Definition c17_dep (t : N) (c ty : res) : dep :=
-  {| d_text := t; d_filelike := false; d_code := c; d_type := ty; d_dyn := false; d_deno_types := false |}.
+  {| d_text := t; d_filelike := false; d_code := c; d_type := ty; d_dyn := false; d_deno_types := false; d_attr := 0 |}.
 Definition c17_mod (s : spec) (ds : list dep) : slot :=
   SMod {| m_kind := MkJs; m_spec := s; m_media := MTypeScript; m_deps := ds; m_types_dep := None;
           m_fc_deps := None; m_dts := false |}.
